@@ -140,3 +140,116 @@ Print Assumptions C19_known_refuted.
 Print Assumptions C19_unfit_refused.
 Print Assumptions C19_refused_in_empty_segment_is_noop.
 Print Assumptions C19_v0_refuted.
+
+(** ** bridge to the record level (L2 -> L1): the ORACLE inputs [roll] and [big] of Model/Store.v's [append]
+    (C01–C05) are exactly the decisions ByteLayout takes from sizes.  [l1_oracles s evs = (l1_roll s evs, l1_big s evs)]
+    is computed from the write offset, the segment size, the transaction's event sizes and the stored-length oracle
+    (Proofs/BridgeSizesProofs.v):
+       l1_big  = size < estimate + SEGMENT_HEADER_SIZE
+       l1_roll = not big and (size < wo + estimate                                    -- estimate-based rollover
+                              or (size < wo + actual stored size and SEGMENT_HEADER_SIZE < wo))  -- second write after SegmentFull *)
+From SV Require Import Model.Store Proofs.StoreInv Proofs.StoreSimProofs Proofs.BridgeSizesProofs.
+
+(** (1) big <-> ByteLayout refuses with EventsExceedSegmentSize — in every state, nothing assumed *)
+Theorem C19_oracle_big : forall s evs, l1_big s evs = true <-> snd (bl_append s evs) = BTooBig.
+Proof. exact oracle_big_iff. Qed.
+
+(** (2) roll <-> ByteLayout's append seals the live segment (whichever of the two rollovers; also when the append is
+    then refused) — in every state, nothing assumed; an accepted append reports [if roll then 1 else 0] rollovers
+    (the count 2 of [bl_append] is unreachable) *)
+Theorem C19_oracle_roll : forall s evs,
+  bl_sealed (fst (bl_append s evs)) = (if l1_roll s evs then bl_sealed s ++ [bl_wo s] else bl_sealed s) /\
+  (l1_roll s evs = true <-> bl_sealed (fst (bl_append s evs)) = bl_sealed s ++ [bl_wo s]) /\
+  (l1_roll s evs = false <-> bl_sealed (fst (bl_append s evs)) = bl_sealed s).
+Proof. exact (fun s evs => conj (oracle_roll_sealed s evs) (oracle_roll_iff s evs)). Qed.
+
+Theorem C19_oracle_roll_count : forall s evs k offs,
+  snd (bl_append s evs) = BOk k offs -> k = (if l1_roll s evs then 1 else 0) /\ l1_big s evs = false.
+Proof. exact oracle_roll_count. Qed.
+
+(** (3) the only ByteLayout outcome the L1 model does not have is BFull = Writer(SegmentFull) for good; it is
+    returned exactly on the class [l2_segment_full]: the uncompressed estimate fits an empty segment, the stored
+    size does not (compression made the records larger; C19_example_b) *)
+Theorem C19_segment_full_exact : forall s evs, bl_wf s -> evs <> [] ->
+  (snd (bl_append s evs) = BFull <-> l2_segment_full (bl_size s) (bl_comp s) evs).
+Proof. exact bl_full_iff. Qed.
+
+(* the three outcomes, each characterised by sizes alone *)
+Theorem C19_outcomes : forall s evs, bl_wf s -> evs <> [] ->
+  match snd (bl_append s evs) with
+  | BTooBig => known_c19 (bl_size s) evs
+  | BFull => l2_segment_full (bl_size s) (bl_comp s) evs
+  | BOk k offs => ~ known_c19 (bl_size s) evs /\ fits (bl_size s) (bl_comp s) evs /\ k = (if l1_roll s evs then 1 else 0)
+  end.
+Proof. exact bl_outcomes. Qed.
+
+(** the L1 side: TooBig is answered only through [big] *)
+Theorem C19_l1_not_toobig : forall st t roll, snd (append st t roll false) <> inr TooBig.
+Proof. exact append_not_toobig. Qed.
+Theorem C19_l1_toobig : forall st t roll curs, validate st (t_pk t) [] (t_events t) = inl curs ->
+  append st t roll true = (st, inr TooBig).
+Proof. exact append_toobig. Qed.
+
+(** every ByteLayout outcome against the L1 append taken with the computed oracles, for ANY L1 store [st] and
+    transaction [t]:
+      BTooBig  <-> big: L1 answers TooBig as soon as validation passes (the known finding of C19 lives here);
+      BOk k    =>  big = false, L1 does not answer TooBig, k = if roll then 1 else 0;
+      BFull    <-> [l2_segment_full]; there big = false and L1 does NOT refuse for size: this is the outcome the
+                   L1 model abstracts away (the code answers Writer(SegmentFull); L1 would write the records).
+    So an L1 theorem instantiated with [l1_oracles s evs] speaks about the code exactly when ByteLayout's outcome is
+    not BFull, i.e. outside [l2_segment_full] *)
+Theorem C19_L2_refines_L1_oracles : forall st t s evs, bl_wf s -> evs <> [] ->
+  let roll := fst (l1_oracles s evs) in
+  let big := snd (l1_oracles s evs) in
+  (big = true <-> snd (bl_append s evs) = BTooBig) /\
+  (roll = true <-> bl_sealed (fst (bl_append s evs)) = bl_sealed s ++ [bl_wo s]) /\
+  (roll = false <-> bl_sealed (fst (bl_append s evs)) = bl_sealed s) /\
+  (snd (bl_append s evs) = BTooBig ->
+     known_c19 (bl_size s) evs /\
+     forall curs, validate st (t_pk t) [] (t_events t) = inl curs -> append st t roll big = (st, inr TooBig)) /\
+  (forall k offs, snd (bl_append s evs) = BOk k offs ->
+     big = false /\ k = (if roll then 1 else 0) /\ snd (append st t roll big) <> inr TooBig) /\
+  (snd (bl_append s evs) = BFull <-> l2_segment_full (bl_size s) (bl_comp s) evs) /\
+  (snd (bl_append s evs) = BFull -> big = false /\ snd (append st t roll big) <> inr TooBig).
+Proof. exact l2_refines_l1_oracles. Qed.
+
+(** "L1 theorem + L2 theorem" composed: a well-formed transaction whose sizes are outside the known class and fit
+    an empty segment (the premises of C19_fits), appended to any L1 store satisfying the invariant with the oracles
+    computed from any well-formed L2 state: ByteLayout accepts and places it (C19_fits); the L1 append is decided by
+    the reference with fits = true (C02's simulation); when the reference accepts, both layers seal the live
+    segment together ([k] more sealed segments on each side) *)
+Theorem C19_L2_L1_composed : forall st t s evs st' r,
+  Inv st -> wf_txn t -> bl_wf s -> evs <> [] ->
+  ~ known_c19 (bl_size s) evs -> fits (bl_size s) (bl_comp s) evs ->
+  append st t (fst (l1_oracles s evs)) (snd (l1_oracles s evs)) = (st', r) ->
+  snd (l1_oracles s evs) = false /\
+  spec_append (abs_all st) t true = (abs_all st', r) /\ Inv st' /\
+  exists k offs, snd (bl_append s evs) = BOk k offs /\ landed s (fst (bl_append s evs)) evs k offs /\
+                 bl_wf (fst (bl_append s evs)) /\ k = (if fst (l1_oracles s evs) then 1 else 0) /\
+                 (forall evs', r = inl evs' ->
+                    length (sealed st') = (length (sealed st) + N.to_nat k)%nat /\
+                    length (bl_sealed (fst (bl_append s evs))) = (length (bl_sealed s) + N.to_nat k)%nat).
+Proof. exact l2_l1_composed. Qed.
+
+(** non-vacuity: the oracles of the three outcomes (in place; estimate-based rollover; second write after
+    SegmentFull; EventsExceedSegmentSize; SegmentFull for good, also with a segment sealed for nothing) *)
+Example C19_example_oracles :
+  l1_oracles (mkBL 131072 true [] 128000) x_txn = (false, false) /\
+  l1_oracles (mkBL 131072 true [] 128600) x_txn = (true, false) /\
+  l1_oracles (mkBL 131072 true [] 126830) x_txn2 = (true, false) /\
+  snd (bl_append (mkBL 131072 true [] 126830) x_txn2) = BOk 1 [48; 2157] /\
+  l1_oracles (mkBL 131072 true [] 5000) wit_c_txn = (false, true) /\
+  l1_oracles (bl_init 131072 true) wit_b_txn = (false, false) /\
+  snd (bl_append (bl_init 131072 true) wit_b_txn) = BFull /\
+  l2_segment_full 131072 true wit_b_txn /\
+  l1_oracles (mkBL 131072 true [] 5000) wit_b_txn = (true, false) /\
+  bl_append (mkBL 131072 true [] 5000) wit_b_txn = (mkBL 131072 true [5000] 48, BFull).
+Proof. exact oracles_examples. Qed.
+
+Print Assumptions C19_oracle_big.
+Print Assumptions C19_oracle_roll.
+Print Assumptions C19_oracle_roll_count.
+Print Assumptions C19_segment_full_exact.
+Print Assumptions C19_outcomes.
+Print Assumptions C19_L2_refines_L1_oracles.
+Print Assumptions C19_L2_L1_composed.
